@@ -14,7 +14,7 @@ import (
 func init() {
 	register(&Prop{
 		ID:          "C13",
-		Explanation: "Decides the error discipline around the session store: every call site in production code of a store-family operation (SessionStore, persistence.Store, redis Client, Lock, SessionState lock helpers, redislock, go-redis commands, the ticket's save/load/clear function values, and every module function that returns such an error) is enumerated; where the enclosing function returns an error the store error is returned or turned into a non-nil error on every path on which it is not known to be nil (the lock retry loop and the refresh-then-validate policy are the two reviewed, structurally checked exceptions), elsewhere it is examined by a branch on every path; Manager.Save sets the ticket cookie only after saveSession returned nil; SignIn and OAuthCallback redirect only after SaveSession returned nil; the readiness endpoint writes 200 only after VerifyConnection returned nil and that error is passed up unchanged from Client.Ping; every Cipher.Decrypt slices its input only under a dominating length guard for the same bound. Added during the build: a failed or empty reload under the refresh lock ends the session (R6, shared with C12); sign-out answers success only after the delete succeeded (R7, shared with C11.R1); in store/persistence/encoding/encryption/middleware code a fallible call's pointer result is dereferenced only behind its err==nil edge (R8). Round 3: every VerifyConnection of a store with a connection returns the result of a probe made during that call (under R4); an error answer of a handler is final (R9).",
+		Explanation: "Decides the error discipline around the session store: every call site in production code of a store-family operation (SessionStore, persistence.Store, redis Client, Lock, SessionState lock helpers, redislock, go-redis commands, the ticket's save/load/clear function values, and every module function that returns such an error) is enumerated; where the enclosing function returns an error the store error is returned or turned into a non-nil error on every path on which it is not known to be nil (the lock retry loop and the refresh-then-validate policy are the two reviewed, structurally checked exceptions), elsewhere it is examined by a branch on every path; Manager.Save sets the ticket cookie only after saveSession returned nil; SignIn and OAuthCallback redirect only after SaveSession returned nil; the readiness endpoint writes 200 only after VerifyConnection returned nil and that error is passed up unchanged from Client.Ping; every Cipher.Decrypt slices its input only under a dominating length guard for the same bound. Added during the build: a failed or empty reload under the refresh lock ends the session (R6, shared with C12); sign-out answers success only after the delete succeeded (R7, shared with C11.R1); in store/persistence/encoding/encryption/middleware code a fallible call's pointer result is dereferenced only behind its err==nil edge (R8). Round 3: every VerifyConnection of a store with a connection returns the result of a probe made during that call (under R4); an error answer of a handler is final (R9). Round 5: a store or decoding function whose caller dereferences the result after checking only the error never returns (nil, nil) (R10).",
 		NotDecided:  "fault sequences (lost replies, pairs of faults), behaviour of msgpack/lz4 on corrupt bytes, time-outs.",
 		Run:         runC13,
 	})
@@ -117,6 +117,7 @@ func runC13(c *Ctx) {
 	r.Rule("R6-reload-under-lock", "a failed or empty reload under the refresh lock ends the request's session (shared with C12.R2/R5): refresh only after a successful reload; errors mean no session and a cleared store session", 3)
 	r.Rule("R7-sign-out", "sign-out answers success only after the store delete succeeded (shared with C11.R1)", 2)
 	r.Rule("R8-result-before-errcheck", "in the session stores, persistence, session encoding and encryption code a fallible call's result is dereferenced only behind its err==nil edge (damaged stored data is an error, not a crash)", 8)
+	r.Rule("R10-value-or-error", "a store/decoding function whose caller dereferences the result after checking only the error never returns (nil, nil): empty or truncated stored data is an error, not a missing value", 3)
 	r.Rule("R9-single-answer", "in every handler of the proxy an error answer (ErrorPage, http.Error, errorJSON) is final: no status, redirect, page or upstream hand-off follows it on any path", 8)
 	r.Rule("R5-decrypt-bounds", "every Cipher.Decrypt slices its input only under a length guard for the same bound", 3)
 
@@ -149,12 +150,15 @@ func runC13(c *Ctx) {
 		fn := fn
 		retIdx := errResultIndex(fn.Signature)
 		isSite := func(_ *walk.Path, cl walk.Call) bool { return fam.name(cl.C) != "" }
-		c.WalkShallow(rule, fn, func(p *walk.Path) {
-			if _, ok := p.Exit.(*ssa.Return); !ok {
+		c.Walk(rule, fn, func(p *walk.Path) { // helpers inlined so that an error handed through a translating helper keeps its identity
+			if _, ok := p.Exit.(*ssa.Return); !ok || p.ExitF != 0 {
 				return
 			}
 			at := p.End()
 			for _, cl := range p.Find(isSite, at) {
+				if cl.Step.F != 0 {
+					continue // a site inside an inlined helper is judged in the helper's own walk
+				}
 				name := fam.name(cl.C)
 				key := "site|" + fnKey(fn) + "|" + name
 				if _, isDefer := cl.In.(*ssa.Defer); isDefer {
@@ -222,6 +226,7 @@ func runC13(c *Ctx) {
 		}
 	}
 	c.checkErrResults("R8-result-before-errcheck", storeFns)
+	c.checkNilNilPairs("R10-value-or-error", storeFns)
 
 	if a := c.c12Anchors("R6-reload-under-lock"); a != nil {
 		c.checkRefreshProtocol("R6-reload-under-lock", a)
